@@ -661,6 +661,15 @@ fn seq_op(w: &mut World, accepted: &mut u32, refused: &mut u32, drops: &mut u32)
                     if fail_at.is_some() {
                         viol10("C10/create", "multi-region construction verdict".into(), format!("{} succeeded although an mmap failed", desc));
                     }
+                    let listed: Vec<(u64, u64)> = m.iter().map(|r| (r.start_addr().0, r.len())).collect();
+                    let wanted: Vec<(u64, u64)> = specs.iter().map(|&(b, sz, _)| (b, sz as u64)).collect();
+                    if listed != wanted {
+                        viol10("C10/create", "multi-region construction result".into(), format!("{} built a map listing {:x?}", desc, listed));
+                        if let OpOutcome::Panic(p) = catch(|| drop(m)) {
+                            cx().violate("C12", "C12/panic", "panic in drop".into(), p);
+                        }
+                        return desc;
+                    }
                     *accepted += 1;
                     let mut ids = Vec::new();
                     for (i, &(b, sz, file)) in specs.iter().enumerate() {
